@@ -91,6 +91,7 @@ type matrixIterator struct {
 }
 
 func (iter *matrixIterator) Close() {
+	iter.closer()
 	if iter.chunks != nil {
 		iter.chunks.Close()
 	}
